@@ -22,6 +22,11 @@ func (e *Engine) atLoopHeader(st *State, li *loopInfo) (bool, []*State) {
 	if !top {
 		lc = nil
 	}
+	if lc == nil && top && e.cur.region != nil && len(e.cur.region.r.Asserts) == 0 {
+		// a region that only checks the entry assumptions of its children: loops are cut with the trivial invariant
+		lc = &contract.Loop{Ordinal: li.ordinal}
+		li.lc = lc
+	}
 	if lc == nil && top && e.cur.fc != nil && e.cur.fc.Opts["sweep"] != "" {
 		lc = &contract.Loop{Ordinal: li.ordinal}
 		// the sweep template's requires is the object invariant: it holds at every loop head
@@ -94,6 +99,9 @@ func (e *Engine) atLoopHeader(st *State, li *loopInfo) (bool, []*State) {
 	}
 	saved := append([]string(nil), st.labels...)
 	st.label(fmt.Sprintf("loop%d:init", li.ordinal))
+	for _, en := range lc.Entries {
+		e.addOblig(st, "loop-entry", clauseLabel(en), propsOr(en.Props, "SAFETY"), e.evalBool(env, en.Expr), pos)
+	}
 	for _, inv := range lc.Invariants {
 		if !e.wantClause(inv.Props) {
 			continue
@@ -108,10 +116,10 @@ func (e *Engine) atLoopHeader(st *State, li *loopInfo) (bool, []*State) {
 		preHeaps[k] = v
 	}
 	preState := st.clone()
-	e.havocLoop(st, li)
 	na := smt.Fresh("alloc", smt.Int)
 	st.assume(smt.Le(st.alloc, na))
 	st.alloc = na
+	e.havocLoop(st, li)
 	var frameHeaps []string
 	if top && st.epoch == 0 && !e.cur.modAll {
 		for _, name := range smt.SortedKeys(st.heaps) {
@@ -302,6 +310,7 @@ func (e *Engine) havocLoop(st *State, li *loopInfo) {
 		v, f := freshValue(a.Comment, c.Typ)
 		st.cellVals[c] = v
 		st.assumeFacts(f)
+		st.assumeFacts(allocFacts(v, st.alloc))
 		recordRangeDeep(c.Typ, v)
 	}
 	if havocEverything {
